@@ -195,6 +195,22 @@ let cd_oracles : Cd.cd_oracles = {
       if a = "ERR" then None else Some (f_of_bits (int_of_string a)));
 }
 
+(* ---------- mess detector oracles (per-character, memoised: the answers are functions of the code point) ---------- *)
+let flags_cache : (int, BinNums.coq_N) Hashtbl.t = Hashtbl.create 4096
+let racc_cache : (int, BinNums.coq_N) Hashtbl.t = Hashtbl.create 1024
+let md_oracles : Md.md_oracles = {
+  Md.char_flags = (fun cp ->
+      let k = int_of_n cp in
+      match Hashtbl.find_opt flags_cache k with
+      | Some v -> v
+      | None -> let v = n_of_int (int_of_string (ask ("Q FLAGS " ^ string_of_int k))) in Hashtbl.add flags_cache k v; v);
+  Md.unaccent = (fun cp ->
+      let k = int_of_n cp in
+      match Hashtbl.find_opt racc_cache k with
+      | Some v -> v
+      | None -> let v = n_of_int (int_of_string (ask ("Q RACC " ^ string_of_int k))) in Hashtbl.add racc_cache k v; v);
+}
+
 (* ---------- printing matches ---------- *)
 let print_match_line (tag : string) (m : Matches.cmatch) : unit =
   match m with
@@ -401,6 +417,19 @@ let () =
             | Decode.HFuel -> print_string "R FUEL\n")
          | _ -> ());
         flush stdout
+      | ["MESSM"; t; thr] ->
+        let r = Md.mess_ratio fo (Obj.magic Md32.md_consts32) md_oracles (text_of_utf8 (string_of_hex t)) (f_of_bits (int_of_string thr)) in
+        Printf.printf "R %d\nEND\n" (bits_of_f r); flush stdout
+      | ["MDK"] ->
+        let k : Md.md_consts = Obj.magic Md32.md_consts32 in
+        Printf.printf "R %d %d %d %d %d\n" (bits_of_f k.Md.k_03) (bits_of_f k.Md.k_035) (bits_of_f k.Md.k_034) (bits_of_f k.Md.k_2) (bits_of_f k.Md.k_8);
+        flush stdout
+      | ["SUSPROW"; a] ->
+        (* is_suspiciously_successive_range(a, b) for b = None and every range name of the table, in table order *)
+        let oa = if a = "-" then None else Some (coq_string (string_of_hex a)) in
+        let names = SL.map (fun r -> Some (fst (fst r))) Tables.coq_UNICODE_RANGES in
+        let row = SL.map (fun ob -> if Md.suspicious oa ob then '1' else '0') (None :: names) in
+        print_string ("R " ^ SS.of_seq (SL.to_seq row) ^ "\n"); flush stdout
       | ["QUIT"] -> exit 0
       | _ -> failwith ("unknown command " ^ l)
     done
